@@ -48,6 +48,8 @@ fn main() {
     match prop.as_str() {
         "C01" => props::c01::run(ctx),
         "C06" => props::c06::run(ctx),
+        "C04" => props::c04::run(ctx),
+        "C05" => props::c05::run(ctx),
         "C09" => props::c09::run(ctx),
         "C10" => props::c10::run(ctx),
         "C19" => props::c19::run(ctx),
